@@ -67,6 +67,10 @@ func admRun(t *testing.T, lines []string) []string {
 		}()
 		for _, line := range lines {
 			f := strings.Fields(line)
+			if w == nil && f[1] != "cfg" {
+				outs = appendLive(outs, "no-server")
+				continue
+			}
 			switch f[1] {
 			case "cfg":
 				// adm cfg <transports> <eio3> <hook> <mw> <attach> <before> <after>
@@ -106,7 +110,17 @@ func admRun(t *testing.T, lines []string) []string {
 				}
 				at.before = unCsvHex(f[7])
 				at.after = unCsvHex(f[8])
-				w = newWorld(t, opts, at)
+				var attachPanic any
+				func() {
+					defer func() { attachPanic = recover() }()
+					w = newWorld(t, opts, at)
+				}()
+				if attachPanic != nil {
+					// Attach itself blew up (e.g. an invalid mux pattern): the configuration is answered, what follows has no server
+					w = nil
+					outs = appendLive(outs, "panic:attach:"+strings.ReplaceAll(fmt.Sprint(attachPanic), " ", "_"))
+					continue
+				}
 				if f[5] == "fail" {
 					w.srv.Use(func(ctx *types.HttpContext, next func(error)) { next(errors.New("middleware says no")) })
 				}
@@ -656,6 +670,10 @@ func famAdmRoute(t *testing.T, r *Rec) {
 			r.scenarios++
 			for i, l := range lines {
 				r.Op(l, outs[i])
+			}
+			if outs[0] != "ok" {
+				r.Violate("C05", "C05/attach/"+strings.SplitN(a.spec, ":", 2)[0]+"/"+strings.SplitN(outs[0], ":", 3)[0], fmt.Sprintf("attaching the engine (%s) does not give a server: %s", a.spec, outs[0]), lines[:1])
+				continue
 			}
 			for i, p := range paths {
 				out := outs[1+i]
